@@ -809,7 +809,7 @@ func (fr *Frame) callEffects(ci ssa.CallInstruction, li *loopInfo, ef *effects) 
 	if cc.IsInvoke() {
 		key := typeArgsRe.ReplaceAllString(typeKey(cc.Value.Type()), "") + "." + cc.Method.Name()
 		if c := vc.ifaceContractFor(key); c != nil {
-			fr.contractEffects(c, ef)
+			fr.contractCallEffects(c, cc.Method.Type().(*types.Signature), cc.Value.Type(), append([]ssa.Value{cc.Value}, cc.Args...), li, ef)
 			return
 		}
 		if cc.Method.Name() == "Error" || cc.Method.Name() == "String" || isEffectFree(key) {
@@ -817,6 +817,16 @@ func (fr *Frame) callEffects(ci ssa.CallInstruction, li *loopInfo, ef *effects) 
 		}
 		ef.all = true
 		return
+	}
+	if callee, ok := cc.Value.(*ssa.Function); ok {
+		if c := vc.contractFor(funcKey(callee)); c != nil && !c.Inline {
+			var recvT types.Type
+			if callee.Signature.Recv() != nil {
+				recvT = callee.Signature.Recv().Type()
+			}
+			fr.contractCallEffects(c, callee.Signature, recvT, cc.Args, li, ef)
+			return
+		}
 	}
 	switch callee := cc.Value.(type) {
 	case *ssa.Builtin:
@@ -848,6 +858,106 @@ func (fr *Frame) callEffects(ci ssa.CallInstruction, li *loopInfo, ef *effects) 
 		fr.funcEffects(callee.Fn.(*ssa.Function), ef, 0)
 	default:
 		ef.all = true
+	}
+}
+
+// modTarget resolves a modifies expression statically to (index of the callee parameter it is
+// rooted at, type of the modified region).
+func modTarget(e *Expr, names []string, tys []types.Type) (int, types.Type, bool) {
+	switch e.Kind {
+	case EIdent:
+		for i, n := range names {
+			if n == e.Name {
+				return i, tys[i], true
+			}
+		}
+	case EUnary:
+		if e.Op == "*" {
+			i, t, ok := modTarget(e.Args[0], names, tys)
+			if ok {
+				if p, ok := t.Underlying().(*types.Pointer); ok {
+					return i, p.Elem(), true
+				}
+			}
+		}
+	case EField:
+		i, t, ok := modTarget(e.Args[0], names, tys)
+		if ok {
+			if p, isP := t.Underlying().(*types.Pointer); isP {
+				t = p.Elem()
+			}
+			if obj, _ := lookupFieldAnyPkg(t, e.Op); obj != nil {
+				return i, obj.Type(), true
+			}
+		}
+	case ESlice, EIndex:
+		i, t, ok := modTarget(e.Args[0], names, tys)
+		if ok {
+			switch u := t.Underlying().(type) {
+			case *types.Slice:
+				return i, u.Elem(), true
+			case *types.Array:
+				return i, u.Elem(), true
+			case *types.Pointer:
+				if a, ok := u.Elem().Underlying().(*types.Array); ok {
+					return i, a.Elem(), true
+				}
+			}
+		}
+	}
+	return 0, nil, false
+}
+
+// contractCallEffects: like contractEffects but resolves the modifies clause against the
+// actual arguments, so that writes through loop-invariant pointers keep a precise frame.
+func (fr *Frame) contractCallEffects(c *FuncContract, sig *types.Signature, recvT types.Type, argVals []ssa.Value, li *loopInfo, ef *effects) {
+	vc := fr.vc
+	if c.ModifiesAll || len(c.Modifies) == 0 {
+		fr.contractEffects(c, ef)
+		return
+	}
+	saved := c.Modifies
+	c.Modifies = nil
+	fr.contractEffects(c, ef)
+	c.Modifies = saved
+	names, tys := sigNames(sig, recvT)
+	for _, m := range c.Modifies {
+		idx, t, ok := modTarget(m, names, tys)
+		if !ok || idx >= len(argVals) {
+			ef.all = true
+			return
+		}
+		leaf := map[Sort]bool{}
+		vc.leafSorts(t, leaf)
+		root, rok := fr.rootOf(argVals[idx], li)
+		// *p with a single-slot pointee and a loop-invariant p: the exact address
+		if m.Kind == EUnary && m.Op == "*" && m.Args[0].Kind == EIdent && vc.tt.Slots(t) == 1 && rok && root.Valid() {
+			if pv, err := fr.value(argVals[idx]); err == nil && pv.Sort == SRef {
+				for s := range leaf {
+					ef.exact[s] = append(ef.exact[s], pv)
+					if _, has := ef.sorts[s]; !has {
+						ef.sorts[s] = nil
+					}
+				}
+				continue
+			}
+		}
+		for s := range leaf {
+			switch {
+			case rok && !root.Valid():
+				ef.fresh[s] = true
+				if _, has := ef.sorts[s]; !has {
+					ef.sorts[s] = nil
+				}
+			case rok:
+				ef.sorts[s] = append(ef.sorts[s], root)
+			default:
+				ef.unk[s] = true
+				if _, has := ef.sorts[s]; !has {
+					ef.sorts[s] = nil
+				}
+			}
+		}
 	}
 }
 
